@@ -136,6 +136,19 @@ EXTRA3 = {
     'C16': 'CSVWMetadata.read evaluated: metadata addressed by bare name, relative or absolute path or a dictionary locates the same CSV file (LOCATE).',
     'C17': 'Verification.__str__ evaluated for every report option: the counts printed by the command are the counts of the result (REPORT).',
 }
+EXTRA4 = {
+    'C01': 'The rex hooks of both calculators, evaluated, return expressions matching every value handed in, the empty string included (REXHOOK); an in-memory constraints dictionary is left as it was by the loader (NOMUTATE).',
+    'C07': 'The distinct values a database column is described by are its distinct non-null values, empty strings and zeros included (DISTINCT).',
+    'C08': 'The database rex hook matches every value handed in (REXHOOK); a text extended by += is never used as a % template (SQLQ).',
+    'C09': 'A .tdda file and the dictionary it holds load alike, also for fields named like comments (SAMELOAD); the loader does not modify the dictionary it is given (NOMUTATE); the kind table, evaluated, holds the standard kinds only (KEYS).',
+    'C11': 'Script names that differ map to different reference sub-directories (REFDIR).',
+    'C12': 'Path expressions written into the script denote the files the command wrote (JOINREPR); the binary comparison fails for any difference, also in length only at a block boundary (BINARY).',
+    'C15': 'Class-level defaults (tmp_dir) are stored on the class they are set through (DEFAULTS).',
+    'C16': 'Date formats in CSVW notation are translated for every spelling of the date types (DATEFMT); in a table group data and schema come from the same table (TABLEGROUP).',
+    'C17': 'The default comparators accept the bound itself, also for integers beyond 2**53 (ROUNDTRIP).',
+}
+for _k, _t in EXTRA4.items():
+    CLAIMS[_k]['text'] = CLAIMS[_k]['text'].rstrip() + ' ' + _t
 _SPEC = ('source-to-source specialisation before the rules run: helpers that are new with respect to the recorded function names '
          'are read in place at their call sites, wrapper delegation / operator.* / lambdas / constant tables folded (sa/specialise.py)')
 for _k, _t in EXTRA3.items():
